@@ -508,6 +508,7 @@ type c06Gen struct {
 	where    [][]int // per handle: kinds of the elements of its WHERE list (0 plain/And, 1 single Or, 2 Not)
 	retN     []int   // per handle: number of Returning merges with columns on its path (-1 = RETURNING *)
 	scoped   []bool // per handle: has pending Scopes
+	ptrAlias []bool // per handle: shares its *Statement with another reusable handle (Session / Session{NewDB} of or from a reusable handle)
 	inTx     []bool // per handle: descends from Begin (a nested Begin is an error, not a chain)
 	nextAtom int
 	clean    bool // avoid the shapes of the listed findings
@@ -530,6 +531,12 @@ func (g *c06Gen) add(o c06Op, clone int, where []int, retN int) int {
 		sc = true
 	}
 	g.scoped = append(g.scoped, sc)
+	al := false
+	if (o.Name == "session" || o.Name == "newdb") && o.Src < len(g.clone)-1 && g.clone[o.Src] > 0 {
+		al = true // Session without Context shares the statement pointer with its (reusable) source
+		g.ptrAlias[o.Src] = true
+	}
+	g.ptrAlias = append(g.ptrAlias, al)
 	g.inTx = append(g.inTx, o.Name == "begin" || (o.Src < len(g.inTx) && g.inTx[o.Src]))
 	return len(g.clone) - 1
 }
@@ -639,6 +646,13 @@ func (g *c06Gen) step() {
 		if r.Intn(5) == 0 {
 			name = "havingg"
 			g.add(c06Op{Name: name, Src: s, A: arg}, 0, w, rn)
+			return
+		}
+		if g.scoped[arg] {
+			// pending scopes: whether the group gets a condition depends on the tree (F24); the WHERE kinds are
+			// only generator bookkeeping for the listed shapes, the argument is marked and never reused as one
+			g.scoped[arg] = false
+			g.add(c06Op{Name: name, Src: s, K: kind, A: arg}, 0, append(w, kind), rn)
 			return
 		}
 		if len(g.where[arg]) == 0 && g.clone[arg] != 1 {
@@ -765,8 +779,14 @@ func (g *c06Gen) pickArg() int {
 		if g.clone[i] == 0 && g.used[i] {
 			continue
 		}
-		if i == 0 || g.scoped[i] {
-			continue // BuildCondition runs executeScopes on the argument: out of the modelled fragment (see report)
+		if i == 0 {
+			continue
+		}
+		if g.scoped[i] && (g.clean || (g.clone[i] > 0 && g.ptrAlias[i])) {
+			// BuildCondition runs executeScopes on the argument (F24): avoided in clean mode; the model keeps
+			// statements by value, so a reusable argument whose *Statement is shared with another reusable
+			// handle (scopes = nil hits both) is outside what the tie can follow
+			continue
 		}
 		w := g.where[i]
 		if g.clone[i] == 1 {
@@ -788,7 +808,7 @@ func (g *c06Gen) pickArg() int {
 }
 
 func c06Generate(rng *rand.Rand, maxOps int, clean bool) c06Hist {
-	g := &c06Gen{rng: rng, clean: clean, clone: []int{1}, used: []bool{false}, where: [][]int{nil}, retN: []int{0}, scoped: []bool{false}, inTx: []bool{false}}
+	g := &c06Gen{rng: rng, clean: clean, clone: []int{1}, used: []bool{false}, where: [][]int{nil}, retN: []int{0}, scoped: []bool{false}, inTx: []bool{false}, ptrAlias: []bool{false}}
 	n := 3 + rng.Intn(maxOps-2)
 	// capacity-sensitive prefix: several merges of one clause kind on a shared ancestor
 	if rng.Intn(3) == 0 {
@@ -842,10 +862,11 @@ type c06Shape struct {
 	where    [][]int
 	ret      []int
 	reusable []bool
+	scoped   []bool // pending Scopes on the handle's statement (static approximation)
 }
 
 func c06Shapes(h c06Hist) c06Shape {
-	sh := c06Shape{where: [][]int{nil}, ret: []int{0}, reusable: []bool{true}}
+	sh := c06Shape{where: [][]int{nil}, ret: []int{0}, reusable: []bool{true}, scoped: []bool{false}}
 	clone := []int{1}
 	for _, o := range h.Ops {
 		s := o.Src
@@ -892,10 +913,21 @@ func c06Shapes(h c06Hist) c06Shape {
 		case "retstar":
 			rn = -1
 		}
+		sc := false
+		if s < len(clone) && o.Name != "skip" && o.Name != "render" {
+			// a chain call on a clone-1 handle starts from an empty statement; derivations keep it
+			if clone[s] != 1 || cl > 0 {
+				sc = sh.scoped[s]
+			}
+		}
+		if o.Name == "scopes" {
+			sc = true
+		}
 		clone = append(clone, cl)
 		sh.where = append(sh.where, w)
 		sh.ret = append(sh.ret, rn)
 		sh.reusable = append(sh.reusable, cl > 0)
+		sh.scoped = append(sh.scoped, sc)
 	}
 	return sh
 }
@@ -936,11 +968,14 @@ func c06Patterns(h c06Hist) map[string]bool {
 				p["F4-C06-returning-append-alias"] = true
 			}
 		case "selects":
-			if len(o.L) > 0 && o.Sl < len(h.Slices) && o.K+len(o.L) <= h.Slices[o.Sl].Cap {
+			if len(o.L) > 0 && o.Sl < len(h.Slices) && o.K < h.Slices[o.Sl].Cap {
 				p["F22-C06-select-appends-caller-slice"] = true
 			}
 		case "condg", "havingg":
 			if o.A < len(sh.where) {
+				if sh.scoped[o.A] && sh.reusable[o.A] {
+					p["F24-C06-group-arg-loses-scopes"] = true
+				}
 				w := sh.where[o.A]
 				if len(w) == 1 && w[0] == 1 {
 					p["F5-C06-group-arg-rewritten"] = true
@@ -954,29 +989,47 @@ func c06Patterns(h c06Hist) map[string]bool {
 	return p
 }
 
-// which part of the statement differs
-func c06Region(a, b string) string {
-	cut := func(s, kw string) (string, string) {
-		if i := strings.Index(s, kw); i >= 0 {
-			return s[:i], s[i:]
+// which part of the statement differs: the statement is cut at its top-level keywords (the generated
+// conditions, columns and joins never contain them) and compared segment by segment
+func c06Segments(q string) map[string]string {
+	seg := map[string]string{}
+	cur := "head"
+	kws := []struct{ kw, name string }{{" WHERE ", "where"}, {" GROUP BY ", "group"}, {" HAVING ", "where2"}, {" ORDER BY ", "order"},
+		{" LIMIT ", "limit"}, {" RETURNING ", "returning"}}
+	for len(q) > 0 {
+		best, bi := -1, -1
+		for i, k := range kws {
+			if j := strings.Index(q, k.kw); j >= 0 && (best < 0 || j < best) {
+				best, bi = j, i
+			}
 		}
-		return s, ""
+		if best < 0 {
+			seg[cur] += q
+			break
+		}
+		seg[cur] += q[:best]
+		cur = kws[bi].name
+		q = q[best+len(kws[bi].kw):]
+		if seg[cur] == "" {
+			seg[cur] = " "
+		}
 	}
-	ah, ar := cut(a, " RETURNING ")
-	bh, br := cut(b, " RETURNING ")
-	if ah == bh && ar != br {
-		return "returning"
+	return seg
+}
+
+func c06Region(a, b string) string {
+	sa, sb := c06Segments(a), c06Segments(b)
+	diff := map[string]bool{}
+	for _, k := range []string{"head", "where", "group", "where2", "order", "limit", "returning"} {
+		if strings.TrimSpace(sa[k]) != strings.TrimSpace(sb[k]) {
+			diff[map[string]string{"head": "select", "where": "where", "where2": "where", "returning": "returning"}[k]] = true
+		}
 	}
-	aw0, aw := cut(ah, " WHERE ")
-	bw0, bw := cut(bh, " WHERE ")
-	if aw != bw && aw0 == bw0 {
-		return "where"
-	}
-	if aw == bw && aw0 != bw0 {
-		as, _ := cut(aw0, " FROM ")
-		bs, _ := cut(bw0, " FROM ")
-		if as != bs {
-			return "select"
+	if len(diff) == 1 {
+		for k := range diff {
+			if k != "" {
+				return k
+			}
 		}
 	}
 	return "other"
@@ -987,6 +1040,24 @@ var c06RegionOf = map[string]string{
 	"F22-C06-select-appends-caller-slice": "select",
 	"F5-C06-group-arg-rewritten":          "where",
 	"F23-C06-where-build-swap":            "where",
+	"F24-C06-group-arg-loses-scopes":      "where",
+}
+
+// c06Live: the listed findings whose witness still reproduces on THIS tree (set once per run / replay).  A
+// mismatch is attributed to a listed finding only while that finding is live: on a tree that carries the
+// repair, the same shape differing is a violation again.
+var c06Live map[string]bool
+
+func c06LiveFindings() map[string]bool {
+	if c06Live == nil {
+		c06Live = map[string]bool{}
+		for id, h := range c06Witnesses() {
+			if _, _, bad := c06Judge(h); len(bad) > 0 && c06Patterns(h)[id] && bad[0].Region == c06RegionOf[id] {
+				c06Live[id] = true
+			}
+		}
+	}
+	return c06Live
 }
 
 type c06Mismatch struct {
@@ -1066,7 +1137,7 @@ func c06Report(r *Result, suite string, h c06Hist, bad []c06Mismatch) {
 		}
 		sort.Strings(ids)
 		for _, p := range ids {
-			if c06RegionOf[p] == m.Region && listed(p) {
+			if c06RegionOf[p] == m.Region && listed(p) && c06LiveFindings()[p] {
 				id = p
 				break
 			}
@@ -1099,6 +1170,10 @@ func c06Witnesses() map[string]c06Hist {
 		"F22-C06-select-appends-caller-slice": {Slices: []c06Slice{{Atoms: []int{1, 2}, Cap: 4}}, Ops: []c06Op{
 			{Name: "selects", Src: 0, Sl: 0, K: 2, L: []int{3}}, {Name: "selects", Src: 0, Sl: 0, K: 2, L: []int{4}},
 			{Name: "render", Src: 1, A: 0}, {Name: "render", Src: 2, A: 0}}},
+		"F24-C06-group-arg-loses-scopes": {Ops: []c06Op{
+			{Name: "scopes", Src: 0, A: 1}, {Name: "session", Src: 1}, {Name: "render", Src: 2, A: 0},
+			{Name: "cond", Src: 0, K: 0, A: 2}, {Name: "condg", Src: 4, K: 0, A: 2}, {Name: "render", Src: 5, A: 0},
+			{Name: "render", Src: 2, A: 0}}},
 	}
 }
 
